@@ -10,7 +10,7 @@ var _ = API("d2", func() {})
 var _ = Service("svc", func() {
 	Method("find", func() {
 		Payload(func() {
-			Attribute("weights", MapOf(Int32, String), func() { MinLength(2) })
+			Attribute("weights", MapOf(Int32, String), func() { MinLength(3) })
 			Attribute("id", String, func() { Format(FormatUUID) })
 			Attribute("since", String, func() { Format(FormatDateTime) })
 			Attribute("day", String, func() { Format(FormatDate) })
